@@ -14,12 +14,36 @@ TB_M2 = ['vm/instructions.go journal opcodes 0xe0-0xe7 and loadDataFromMem are m
          'keccak-256 is an uninterpreted function; the harness supplies digest/preimage pairs and the model fixes the preimage shape',
          'holiman/uint256 and Go slice semantics as modelled in Model/Base.lean and Model/Journal.lean (goSlice, memGetCopy)']
 
+TB_GEN = ['fact extractor (go/extract.go): instruction tables and precompile maps read from the running code by reflection, '
+          'declaration identity fork vs go-ethereum v1.12.0 by normalised go/ast; obligations over the regenerated tables closed by decide +kernel']
+
 PROPS = {
     'C09': {
         'modules': ['Artela.Props.C09'],
         'runs': [{'layer': 'journal'}],
         'trusted_base': TB_M1 + TB_M2 + ['Solidity storage layout as written in Artela/Spec/Solidity.lean (solPacked, solString) and, independently, in the Go harness (putString)'],
         'assumptions': ['storage words are < 2^256 (common.Hash)', 'Go append returns capacity >= length'],
+    },
+    'C12': {
+        'modules': ['Artela.Props.C12', 'Artela.Proofs.GenFacts'],
+        'runs': [{'layer': 'journal'}],
+        'trusted_base': TB_M1 + TB_M2 + TB_GEN,
+        'assumptions': ['the interpreter loop performs exactly stack check, dynamic gas, execute, pc++ for a table entry without memorySize (inherited, identical to upstream: generated identity table)'],
+    },
+    'C20': {
+        'modules': ['Artela.Props.C20'],
+        'runs': [{'layer': 'journal'}],
+        'trusted_base': TB_M1 + TB_M2 + ['work is counted as 32 units per StateDB read + 1 per byte copied/allocated; the search uses the fixed multiple K=16 (go/layer_journal.go workK)'],
+        'assumptions': ['standard instructions and precompiles 1-9: bounded by upstream gas schedule (identity-checked, not modelled)'],
+        'partial': 'c20_full is FALSE for the current code (c20_witness_reference_unbounded); proved: c20_partial, c20_value_journal, c20_value_key_journals, c20_key_journal_partial, c20_reference_journal_partial. Known findings D5 (VRJNAL) and D7 (memory-keyed registrations).',
+    },
+    'C03': {
+        'modules': ['Artela.Props.C03'],
+        'runs': [{'layer': 'journal'}],
+        'trusted_base': TB_M1 + TB_M2,
+        'assumptions': ['inherited instructions are panic-free on an initialised host (identity-checked against go-ethereum v1.12.0, not modelled)',
+                        'memory length <= 2^47 (memory expansion gas caps it at 0x1FFFFFFFE0 words)'],
+        'partial': 'c03_partial: Artela-added code (journal opcodes so far) modelled and proved panic-free; inherited instruction bodies assumed',
     },
     'C16': {
         'modules': ['Artela.Props.C16'],
